@@ -194,6 +194,22 @@ def r4_only_symbol_not_defined_defers(ctx: Ctx) -> None:
 
 
 
+def r5_failures_inside_expansions_surface(ctx: Ctx) -> None:
+    """`applying an undefined macro or supplying too few arguments fails` wherever the application stands: no recovering handler of
+    the code generators encloses an expansion (shared with C14.R8)"""
+    from .c14 import recovery_scope
+
+    recovery_scope(ctx)
+
+
+def r6_enclosing_scopes_stay_reachable(ctx: Ctx) -> None:
+    """a macro body (and its arguments) may name anything visible at the call site: the outward lookup must not stop at an
+    enclosing scope that merely binds nothing (shared with C08.R3's truthiness clause)"""
+    from .c08 import scope_truthiness
+
+    scope_truthiness(ctx)
+
+
 def rb_binding_agreement(ctx: Ctx) -> None:
     from ..ownership import binding_agreement
 
@@ -207,4 +223,4 @@ def rm_no_process_lifetime_results(ctx: Ctx) -> None:
     state_rule(ctx)
 
 
-RULES = [r1_arguments_in_caller_scope, r2_positional_binding, r3_per_application_scope, r4_only_symbol_not_defined_defers, rb_binding_agreement, rm_no_process_lifetime_results]
+RULES = [r1_arguments_in_caller_scope, r2_positional_binding, r3_per_application_scope, r4_only_symbol_not_defined_defers, r5_failures_inside_expansions_surface, r6_enclosing_scopes_stay_reachable, rb_binding_agreement, rm_no_process_lifetime_results]
